@@ -158,7 +158,9 @@ def valid_qualified_name(self: "NamespaceManager", qname: "Val") -> "Opt[QN]":
     # an Identifier is a URI: it has a scheme, hence a colon (a colon-free Identifier with a default
     # namespace set makes Namespace.__getitem__ concatenate a non-string: outside the property's inputs)
     requires("identifier-is-uri", implies(is_ident(qname), contains(as_ident(qname).uri, ":")))
-    requires("kinds", is_qn(qname) or is_str(qname) or is_ident(qname) or is_none(qname))
+    requires("not-a-container", not is_other(qname))
+    ensures("none-for-other-kinds", implies(not (is_qn(qname) or is_str(qname) or is_ident(qname)), result is None))
+    ensures("result-namespace-ok", implies(result is not None, NsOK(the(result).namespace)))
     invariant("L1", "none-matched",
               forall(lambda j: implies(0 <= j and j < _i, not prefixof(_elem(j).uri, str_value)), "int"))
     after_loop("L1", "no-compaction", not exists(lambda k: k in self and prefixof(self[k].uri, str_value), "str"))
@@ -173,8 +175,13 @@ def valid_qualified_name(self: "NamespaceManager", qname: "Val") -> "Opt[QN]":
     # resolving text changes nothing, except that a name found through the parent is anchored here
     ensures("pure-on-text", implies(not is_qn(qname) and (self.parent is None or result is None), SameTables(self)))
     ensures("default-discipline", old(self._default) is None or same(self._default, old(self._default)))
-    ensures("text-resolution", implies(is_str(qname) or is_ident(qname),
-                                       Resolution(self, TextOf(qname), result)))
+    # what the resolver does with text (A.1 of DESIGN), one clause per branch, over the pre-state tables
+    ensures("text-blank", implies(IsText(qname), old(TextBlank(self, TextOf(qname), result))))
+    ensures("text-registered-prefix", implies(IsText(qname), old(TextPrefix(self, TextOf(qname), result))))
+    ensures("text-renamed-prefix", implies(IsText(qname), old(TextRenamed(self, TextOf(qname), result))))
+    ensures("text-compaction", implies(IsText(qname), old(TextCompaction(self, TextOf(qname), result))))
+    ensures("text-default", implies(IsText(qname), old(TextDefault(self, TextOf(qname), result))))
+    ensures("text-delegated", implies(IsText(qname) and old(NotLocal(self, TextOf(qname))), Delegated(self, TextOf(qname), result)))
     ensures("none-for-none", implies(is_none(qname), result is None))
     requires("qname-prefix-well-formed", implies(is_qn(qname), ":" not in as_qn(qname).namespace.prefix
                                                  and as_qn(qname).namespace.prefix != "_"))
@@ -204,41 +211,81 @@ def TextOf(x: "Val") -> "str":
 
 
 @spec
-def ResolutionLocal(M: "NamespaceManager", s: "str", r: "Opt[QN]", fallback: "bool") -> "bool":
-    """What one manager does with the text s (A.1 of DESIGN, relational because the URI-compaction
-    branch picks the first matching namespace in iteration order); `fallback` says whether the
-    delegation to the parent produced r."""
-    i = indexof(s, ":", 0)
-    p = substr(s, 0, i)
-    l = substr(s, i + 1, strlen(s))
-    if s == "":
-        return r is None
-    if prefixof("_:", s):
-        return r is None
-    if contains(s, ":"):
-        if p in M:
-            return r is not None and same(the(r), mkQN(M[p], l))
-        if p in M._prefix_renamed_map:
-            return r is not None and same(the(r), mkQN(M._prefix_renamed_map[p], l))
-        if exists(lambda k: k in M and prefixof(M[k].uri, s), "str"):
-            return r is not None and exists(
-                lambda k: k in M and prefixof(M[k].uri, s)
-                and same(the(r), mkQN(M[k], substr(s, strlen(M[k].uri), strlen(s) - strlen(M[k].uri)))), "str")
-        return fallback
-    if M._default is not None:
-        return r is not None and same(the(r), mkQN(M._default, s))
-    return fallback
+def IsText(x: "Val") -> "bool":
+    return is_str(x) or is_ident(x)
 
 
 @spec
-def Resolution(M: "NamespaceManager", s: "str", r: "Opt[QN]") -> "bool":
-    """with the parent: whatever the parent finds is re-homed in M (same URI, anchored in M's tables)"""
-    fb = (r is None) if M.parent is None else exists(
-        lambda rp: old(ResolutionLocal(M.parent, s, rp, rp is None))
+def PrefixOf(s: "str") -> "str":
+    return substr(s, 0, indexof(s, ":", 0))
+
+
+@spec
+def LocalOf(s: "str") -> "str":
+    return substr(s, indexof(s, ":", 0) + 1, strlen(s))
+
+
+@spec
+def Prefixed(s: "str") -> "bool":
+    return s != "" and not prefixof("_:", s) and contains(s, ":")
+
+
+@spec
+def TextBlank(M: "NamespaceManager", s: "str", r: "Opt[QN]") -> "bool":
+    return implies(s == "" or prefixof("_:", s), r is None)
+
+
+@spec
+def TextPrefix(M: "NamespaceManager", s: "str", r: "Opt[QN]") -> "bool":
+    return implies(Prefixed(s) and PrefixOf(s) in M, r is not None and same(the(r), mkQN(M[PrefixOf(s)], LocalOf(s))))
+
+
+@spec
+def TextRenamed(M: "NamespaceManager", s: "str", r: "Opt[QN]") -> "bool":
+    return implies(Prefixed(s) and PrefixOf(s) not in M and PrefixOf(s) in M._prefix_renamed_map,
+                   r is not None and same(the(r), mkQN(M._prefix_renamed_map[PrefixOf(s)], LocalOf(s))))
+
+
+@spec
+def TextCompaction(M: "NamespaceManager", s: "str", r: "Opt[QN]") -> "bool":
+    # the URI-compaction branch picks the first matching namespace in iteration order: relational
+    return implies(CompactionCase(M, s),
+                   r is not None and exists(
+                       lambda k: k in M and prefixof(M[k].uri, s)
+                       and same(the(r), mkQN(M[k], substr(s, strlen(M[k].uri), strlen(s) - strlen(M[k].uri)))), "str"))
+
+
+@spec
+def TextDefault(M: "NamespaceManager", s: "str", r: "Opt[QN]") -> "bool":
+    return implies(s != "" and not prefixof("_:", s) and not contains(s, ":") and M._default is not None,
+                   r is not None and same(the(r), mkQN(M._default, s)))
+
+
+@spec
+def NotLocal(M: "NamespaceManager", s: "str") -> "bool":
+    """none of the manager's own branches applies: the text goes to the parent"""
+    return s != "" and not prefixof("_:", s) and (
+        (contains(s, ":") and PrefixOf(s) not in M and PrefixOf(s) not in M._prefix_renamed_map
+         and not exists(lambda k: k in M and prefixof(M[k].uri, s), "str"))
+        or (not contains(s, ":") and M._default is None))
+
+
+@spec
+def Delegated(M: "NamespaceManager", s: "str", r: "Opt[QN]") -> "bool":
+    """whatever the parent finds is re-homed in M: same URI, anchored in M's tables"""
+    if M.parent is None:
+        return r is None
+    return exists(
+        lambda rp: old(ParentFinds(M.parent, s, rp))
         and ((rp is None and r is None)
              or (rp is not None and r is not None and the(r).uri == the(rp).uri and HandedLocal(M, the(r)))),
         "Opt[QN]", hint="parent_qname")
-    return old(ResolutionLocal(M, s, r, fb))
+
+
+@spec
+def ParentFinds(P: "NamespaceManager", s: "str", rp: "Opt[QN]") -> "bool":
+    return (TextBlank(P, s, rp) and TextPrefix(P, s, rp) and TextRenamed(P, s, rp) and TextCompaction(P, s, rp)
+            and TextDefault(P, s, rp) and implies(NotLocal(P, s), rp is None))
 
 
 # ----------------------------------------------------------------------------------------------
@@ -295,14 +342,14 @@ def ChildrenKeepHanded(M: "NamespaceManager") -> "bool":
 
 
 @lemma("handed-names-resolve", props=["C03"])
-def handed_names_resolve(M: "NamespaceManager", q: "QN", r: "Opt[QN]", fallback: "bool"):
+def handed_names_resolve(M: "NamespaceManager", q: "QN", r: "Opt[QN]"):
     """C03(c) as the property states it: printing a handed-out name and resolving the text in the same
     container yields a name with the same URI.  Resolution is the verified postcondition of
     valid_qualified_name on text."""
     assume(NSM_Inv(M))
     assume(WellFormedName(q))
     assume(HandedLocal(M, q))
-    assume(ResolutionLocal(M, qn_str(q), r, fallback))
+    assume(TextBlank(M, qn_str(q), r) and TextPrefix(M, qn_str(q), r) and TextDefault(M, qn_str(q), r))
     prove("resolves", r is not None)
     prove("same-uri", the(r).uri == q.uri)
 
